@@ -305,8 +305,6 @@ def _evolved_pairs(gb, rng, tier, cfgs=('plain',), protos=None, second=None):
         d = sch.types[tname]
         if d['kind'] != 'struct' or tname in no_key or not d['fields']:
             continue
-        if genrun.is_arg_swallow(sch, cfg, tname, 'sync'):
-            continue            # F-13a: keep builds of `args` structs swallow what follows
         ty = ('ref', tname)
         for rep in range(2 if tier == 'quick' else 8):
             W = sch.copy()
